@@ -250,6 +250,7 @@ type respRunner struct {
 	child *respChild
 	bin   string
 	gw    *gateway // the real server (embedded backend): every input also goes through handleConn
+	probe *conn
 }
 
 // connRun sends input on a fresh connection of the real gateway, closes the
@@ -284,14 +285,22 @@ func (rr *respRunner) connRun(input []byte) (now int64, got []byte, clean, alive
 	} else {
 		why = "dial: " + err.Error()
 	}
-	// liveness: a new connection answers PING
+	// liveness: the gateway still answers PING (on a long-lived probe connection,
+	// re-dialled once if it broke)
 	for attempt := 0; attempt < 2 && !alive; attempt++ {
-		if p, err := rr.gw.dial(); err == nil {
-			rep, err := p.do([]byte("PING"))
-			p.close()
-			alive = err == nil && string(rep) == "+PONG\r\n"
-		} else {
-			time.Sleep(100 * time.Millisecond)
+		if rr.probe == nil {
+			p, err := rr.gw.dial()
+			if err != nil {
+				time.Sleep(100 * time.Millisecond)
+				continue
+			}
+			rr.probe = p
+		}
+		rep, err := rr.probe.do([]byte("PING"))
+		alive = err == nil && string(rep) == "+PONG\r\n"
+		if !alive {
+			rr.probe.close()
+			rr.probe = nil
 		}
 	}
 	if !alive {
@@ -303,6 +312,10 @@ func (rr *respRunner) connRun(input []byte) (now int64, got []byte, clean, alive
 			lg = lg[:300]
 		}
 		why += " gateway dead: " + string(lg)
+		if rr.probe != nil {
+			rr.probe.close()
+			rr.probe = nil
+		}
 		rr.gw.stop()
 		rr.gw = nil
 	}
